@@ -1157,6 +1157,18 @@ def fam_errors(g, prefix, n_random):
             add([["sub", g.combine_named(c, g.cold(items[:pos] + [e_(5)]), [g.cold([n_(7), n_(8), C_])]), NOREACT]])
             g.tag = 0
             add([["sub", g.combine_named(c, g.cold([n_(7), n_(8), C_]), [g.cold(items[:pos] + [e_(6)])]), NOREACT]])
+    # payloads of other TYPES than the harness's own struct (C04: downcast_ref to the ORIGINAL type): 1000.. an RxError wrapping
+    # it (a nested error), 2000.. a String, 3000.. an i64 - through every operator, creation function and recovery operator
+    for pid in (1005, 2005, 3005):
+        for name in sorted(ops):
+            g.tag = 0
+            add([["sub", ops[name](g.cold([n_(1), e_(pid)])), NOREACT]])
+        for src in (["error", str(pid)], ["from_result_err", str(pid)], ["materialize", ["error", str(pid)]], ["dematerialize", ["materialize", ["from_result_err", str(pid)]]],
+                    ["retry", "2", ["cold", "0", n_(1), e_(pid)]], ["retry_when", "ff", ["cold", "0", e_(pid)]], ["on_error_resume_next", "rs_same", ["cold", "0", e_(pid)]],
+                    ["on_error_resume_next", "rs_payload", ["cold", "0", e_(pid)]], ["merge", ["never"], ["error", str(pid)]], ["flat_map", ["fm_err", "2"], ["from_iter", "1", "2"]],
+                    ["observe_on_d", ["error", str(pid)]], ["take", "1", ["materialize", ["error", str(pid)]]]):
+            g.tag = 0
+            add([["sub", src, NOREACT]])
     for c in ("merge", "concat", "zip", "amb", "combine_latest", "sequence_equal"):
         for pos in range(len(items) + 1):
             g.tag = 0
